@@ -704,14 +704,20 @@ func c15AtomicOption(c *Ctx) {
 	}
 	sf := p.SSAFunc(fr.Obj)
 	var putAtomic *ssaCall
-	for _, call := range callsIn(sf) {
-		if fn := staticCalleeObj(call.Call); fn != nil && calleeIs(fn, "private/pkg/storage", "PutWithAtomic") {
-			k := call
-			putAtomic = &k
+	// the option may be built by a helper of the package that copyReadObject calls
+	for _, f := range reachSSA(sf, 2) {
+		if f.Pkg == nil || f.Pkg != sf.Pkg {
+			continue
+		}
+		for _, call := range callsIn(f) {
+			if fn := staticCalleeObj(call.Call); fn != nil && calleeIs(fn, "private/pkg/storage", "PutWithAtomic") {
+				k := call
+				putAtomic = &k
+			}
 		}
 	}
 	if putAtomic == nil {
-		c.Fail(rule, "PutWithAtomic", fr.Decl.Pos(), "copyReadObject never calls PutWithAtomic")
+		c.Fail(rule, "PutWithAtomic", fr.Decl.Pos(), "neither copyReadObject nor a helper of the package it calls ever calls PutWithAtomic")
 		return
 	}
 	// guard
@@ -721,7 +727,7 @@ func c15AtomicOption(c *Ctx) {
 		if !ge.Branch {
 			continue
 		}
-		origins = p.Origins(ge.If.Cond, 4)
+		origins = p.Origins(ge.If.Cond, 8)
 		guardOK = true
 	}
 	allField := guardOK && len(origins) > 0
@@ -735,7 +741,7 @@ func c15AtomicOption(c *Ctx) {
 	okPut := false
 	for _, call := range callsIn(sf) {
 		if call.Call.IsInvoke() && call.Call.Method.Name() == "Put" && len(call.Call.Args) >= 3 {
-			if putAtomic.Value != nil && dependsOnValue(call.Call.Args[2], putAtomic.Value) {
+			if putAtomic.Value != nil && dependsOnValueDeep(call.Call.Args[2], putAtomic.Value) {
 				okPut = true
 			}
 		}
